@@ -45,7 +45,11 @@ func safeVal(t *rapid.T, label string) string {
 	if chance(t, 25, label+"Num") {
 		return strconv.Itoa(rapid.IntRange(0, 99999).Draw(t, label+"N"))
 	}
-	return rapid.StringMatching(`[a-z0-9]{1,5}`).Draw(t, label)
+	s := rapid.StringMatching(`[a-z0-9]{1,5}`).Draw(t, label)
+	if s == "uuid" { // a bare function name in a `variables` source is replaced by a random value
+		s = "uuie"
+	}
+	return s
 }
 
 func richVal(t *rapid.T, label string) string {
